@@ -122,6 +122,10 @@ def run(chk):
         resets = [s for s in sep_body if isinstance(s, ast.Assign) and ast.unparse(s.targets[0]) == 'self.tag_pair_buffer'
                   and ast.unparse(s.value) in ('list()', '[]')]
         ends = sep_if.body and isinstance(sep_if.body[-1], ast.Continue)
+        if not (len(resets) == 1 and ends):
+            # this reading knows one shape (reset, then `continue`); any other arrangement - an if / elif / else chain, a helper - is decided by the
+            # whole-file rule R6 on runs of blank lines, not here
+            raise AnalysisError('C17.R3', q_ps, 'the separator branch is not of the shape `reset the buffer; continue`: not judged structurally (R6 decides on blank-line layouts)')
         chk.require(len(resets) == 1 and ends, 'C17.R3', repo.where(pci.module, sep_if), q_ps, 'separator branch resets the tag buffer and continues',
                     'after a separator the tag buffer is emptied unconditionally and the line is consumed',
                     'the separator branch does not reset self.tag_pair_buffer unconditionally / does not `continue`: tags of one game leak into the next')
@@ -136,6 +140,9 @@ def run(chk):
         ext = [s for s in loop.body if isinstance(s, ast.Expr) and isinstance(s.value, ast.Call) and ast.unparse(s.value.func) == 'self.extract_content']
         good = len(pct) == 1 and len(ext) == 1 and isinstance(pct[0].body[-1], ast.Continue) and loop.body.index(pct[0]) < loop.body.index(ext[0]) \
             and ast.unparse(ext[0].value.args[0]) == 'line'
+        if not good:
+            raise AnalysisError('C17.R4', q_ps, 'the %-line handling is not of the shape `if line starts with %: ...; continue` before extract_content: not judged structurally '
+                                                '(R6 decides on layouts with header lines and %-lines between games)')
         chk.require(good, 'C17.R4', repo.where(pci.module, pct[0]) if pct else w_ps, q_ps, '%-line branch',
                     'header (%) lines are consumed before content extraction', 'a %-line can reach extract_content (it would pollute the tag buffer)')
 
